@@ -19,7 +19,11 @@ from simprocesd.model.sensors import PeriodicSensor, AttributeProbe
 from simprocesd.model.sensors.part_sensor import OutputPartSensor
 from simprocesd.model.cms.cms import Cms
 
-HARNESS_ID = -7          # asset id of injected operations: matches no asset
+class AbortRun(Exception):
+    '''Raised by the scripted operation 'abort' from inside an event: a user callback that fails.  The run ends there.'''
+
+
+HARNESS_ID = -1          # asset id of harness events: the id the library itself uses for events without an owning asset
 
 # Observation of Asset.initialize (C20: "initialised exactly once"): a logging wrapper installed from here around the
 # base-class method; behaviour unchanged.  The log goes to the hub of the world that is currently entered.
@@ -63,6 +67,17 @@ def leaf_parts(part):
     return [part]
 
 
+def true_value(part):
+    '''Worth of an item computed from its leaves (independent of Batch.value, which is under test).'''
+    if isinstance(part, Batch):
+        return sum(true_value(p) for p in part.parts)
+    return part.value
+
+
+class Pallet(Batch):
+    '''A user subclass of Batch (same behaviour): what a user PartGenerator typically builds.'''
+
+
 class HPartGen(PartGenerator):
     '''User-level PartGenerator (the documented extension point) that makes part ids
     a function of (source, ordinal) so that states reached by different tie orders
@@ -92,7 +107,7 @@ class HPartGen(PartGenerator):
 
     def _shape(self, shape, name):
         '''int n -> Batch of n parts; list -> Batch whose members are the shapes in the list (nested batches).'''
-        b = Batch(name=name)
+        b = Pallet(name=name)
         if isinstance(shape, int):
             shape = [None] * shape
         for i, sh in enumerate(shape):
@@ -203,7 +218,7 @@ class GiveWrap:
         hub.gives.append(None)
         hub.stack.append(idx)
         if part is not None:
-            pid, lv, isb, val, q = part.id, tuple(leaves(part)), isinstance(part, Batch), part.value, part.quality
+            pid, lv, isb, val, q = part.id, tuple(leaves(part)), isinstance(part, Batch), true_value(part), part.quality
         else:
             pid, lv, isb, val, q = None, (), False, 0, None
         blocked = bool(self.dev._block_input)
@@ -250,10 +265,10 @@ class Hub:
 
     # callbacks registered through the public API -------------------------------
     def on_receive(self, dev, part):
-        self.tlog.append(('received', dev.name, part.id, tuple(leaves(part)), part.quality, part.value))
+        self.tlog.append(('received', dev.name, part.id, tuple(leaves(part)), part.quality, true_value(part)))
 
     def on_finish(self, dev, part):
-        self.tlog.append(('finished', dev.name, part.id, tuple(leaves(part)), part.quality, part.value))
+        self.tlog.append(('finished', dev.name, part.id, tuple(leaves(part)), part.quality, true_value(part)))
 
     def on_shutdown(self, dev, is_failure, part):
         self.tlog.append(('shutdown', dev.name, bool(is_failure), part.id if part is not None else None))
@@ -589,9 +604,11 @@ class LineWorld:
         elif k == 'sink':
             o = Sink(name, up, d.get('cycle', 0), d.get('collect', True))
         elif k == 'group':
-            g = Group(name, [self.dev[m] for m in d['members']],
+            members = [self.dev[m] for m in d['members']]
+            g = Group(name, members,
                       [self.dev[m] for m in d['inputs']] if d.get('inputs') else None,
                       [self.dev[m] for m in d['outputs']] if d.get('outputs') else None)
+            members.clear()                  # the caller re-uses its list: no effect allowed
             self.groups[name] = g
             return g
         elif k == 'path':
@@ -606,6 +623,7 @@ class LineWorld:
         else:
             raise HarnessError(f'unknown device kind {k}')
         self.dev[name] = o
+        up.clear()                           # the caller re-uses the list it passed as upstream: no effect allowed
         if d.get('blocked'):
             o.block_input = True
         if isinstance(o, PartHandler):
@@ -653,6 +671,8 @@ class LineWorld:
                 ph = self.dev[d['processor']] if d.get('placeholder') == 'processor' else None
                 probes = [AttributeProbe(attr, ph) for attr in d['probes']]
                 o = OutputPartSensor(self.dev[d['processor']], probes, d.get('sensing_interval', 0), name, cap)
+                if d.get('post_dq') is not None:
+                    self.dev[d['processor']].add_finish_processing_callback(AddValue(0, d['post_dq']))
             for n in range(d.get('callbacks', 1)):
                 o.add_on_sense_callback(SenseCallback(self.hub, n, name))
             return o
@@ -719,7 +739,7 @@ class LineWorld:
             return True
         if k in ('reg', 'unreg', 'addsensor'):
             return op[1] in self.dev and op[2] in self.dev
-        if k == 'addres':
+        if k in ('addres', 'cleardata', 'abort'):
             return True
         if k == 'upstream':
             return op[1] in self.dev and all(u in self.dev for u in op[2])
@@ -902,16 +922,26 @@ class LineWorld:
                 self.dispatched.append((ev.time, ev.asset_id,
                                         getattr(f, '__name__', None) or getattr(getattr(f, 'func', None), '__name__', '?'),
                                         float(ev.event_type)))
-            Environment.step(env)
+            aborted = None
+            try:
+                Environment.step(env)
+            except AbortRun as e:
+                # a user callback raised: the real run loop unwinds (E2: re-raised below, after the bookkeeping that E1
+                # does as well); no further event of this run is dispatched
+                aborted = e
+                env._terminated = True
+                self.facts.append('run_aborted_by_exception')
             if env.now != ev.time or env.now < t_before:
                 raise Violation('clock', f'clock {t_before} -> {env.now} after executing an event due at {ev.time}')
-            if not ev.cancelled and not ev.executed:
+            if not ev.cancelled and not ev.executed and aborted is None:
                 raise Violation('not_executed', f'dispatched event {canon.event_key(ev)[3]} did not run')
             for m in self.monitors:
                 m.after(self, label, ev)
             if env._terminated or not env._events or env._events[0].time > env.now:
                 for m in self.monitors:
                     m.quiescent(self)
+            if aborted is not None and self.mode == 'e2':
+                raise aborted
         finally:
             self._leave()
 
@@ -961,7 +991,9 @@ class LineWorld:
             self.dev[op[1]].adjust_part_count(op[2])
             hub.tlog.append(('adjust', op[1], op[2]))
         elif k == 'upstream':
-            self.dev[op[1]].set_upstream([self.dev[u] for u in op[2]])
+            lst = [self.dev[u] for u in op[2]]
+            self.dev[op[1]].set_upstream(lst)
+            lst.clear()                      # the caller re-uses its list
             hub.tlog.append(('upstream', op[1], tuple(op[2])))
         elif k == 'cycle':
             self.dev[op[1]].cycle_time = op[2]
@@ -989,12 +1021,26 @@ class LineWorld:
             if it is not None:
                 it.quality = op[2]           # the waiting part is re-graded (e.g. an inspection result)
                 hub.tlog.append(('requal', op[1], it.id, op[2]))
+        elif k == 'revalue':
+            # user code books value on the item waiting in / being worked on by a device (holding cost, rework credit)
+            d_ = self.dev[op[1]]
+            it = d_._output if d_._output is not None else d_._part
+            if it is not None:
+                for p_ in leaf_parts(it):
+                    p_.add_value('holding', op[2])
+                hub.tlog.append(('revalue', op[1], it.id, op[2]))
         elif k == 'addvalue':
             self.dev[op[1]].add_value('booking', op[2])
             hub.tlog.append(('addvalue', op[1], op[2]))
         elif k == 'addsensor':
             self.dev[op[1]].add_sensor(self.dev[op[2]])      # registering a sensor again must change nothing
             hub.tlog.append(('addsensor', op[1], op[2]))
+        elif k == 'cleardata':
+            # the user discards the data recorded so far (warm-up) through the public dictionary
+            self.system.simulation_data.clear()
+            hub.tlog.append(('cleardata',))
+        elif k == 'abort':
+            raise AbortRun('scripted failure of a user callback')
         elif k == 'bump':
             o = self.dev[op[1]]
             o.x[0] += 1           # in place: a sensor that stored a reference instead of a copy is exposed
@@ -1066,7 +1112,7 @@ def _check_trace(w, home, run_no):
                                  f'dispatched {want[i] if i < len(want) else None}')
 
 
-def run_e2(spec, monitor_factory, path, prefix_ok=False, trace=False, lenient=False):
+def run_e2(spec, monitor_factory, path, prefix_ok=False, trace=False, lenient=False, norm_split=False):
     '''Replay a choice list through the REAL System.simulate() -- several consecutive calls when the path splits
     the run.  Returns the final digest (hex).  Violations propagate as mc.Violation; a path that does not fit the
     run is a HarnessError.'''
@@ -1162,10 +1208,19 @@ def run_e2(spec, monitor_factory, path, prefix_ok=False, trace=False, lenient=Fa
                     state['t_start'], state['t_end'] = t_prev, t_end
                     try:
                         w.system.simulate(t_end - t_prev, trace=trace, print_summary=False)
-                    finally:
-                        # the run loop exports in a finally clause, so the file must be right even for a prefix
-                        if trace and w.dispatched is not None and not prefix_ok:
-                            pass
+                    except AbortRun:
+                        # the scripted failing callback: the exception must reach the caller, and the trace exported by
+                        # the run loop's finally clause must list every dispatched event including the failing one
+                        if trace:
+                            state['n'] = max(state['n'], 1)
+                            try:
+                                _check_trace(w, home, k)
+                            except Violation as v:
+                                v.mc_steps = state['n']
+                                raise
+                        if list(it):
+                            raise HarnessError('replay: recorded steps left after the run was aborted')
+                        break
                     if trace:
                         state['n'] = max(state['n'], 1)
                         try:
@@ -1228,4 +1283,7 @@ def run_e2(spec, monitor_factory, path, prefix_ok=False, trace=False, lenient=Fa
             else:
                 os.environ['HOME'] = old_home
             shutil.rmtree(home, ignore_errors=True)
+    if norm_split:
+        # bookkeeping that legitimately differs between "one run" and "the same run split in two" (cf. monitors.SplitInv)
+        w.splits_left = w.steps = w.instant_steps = 0
     return w.digest().hex()
